@@ -7,5 +7,8 @@ R(a, b) == [lo |-> a, hi |-> b]
 MCParents == { << R(0, 22) >>, << R(1, 21) >>, << R(0, 11) >>, << R(11, 22) >>, << R(0, 2), R(10, 22) >>,
                << R(0, 1), R(11, 11), R(21, 22) >>, << R(1, 10), R(12, 20) >>, << R(2, 2) >>, << R(0, 0), R(22, 22) >> }
 MCParentsFew == { << R(0, 22) >>, << R(0, 1), R(11, 11), R(21, 22) >>, << R(1, 10), R(12, 20) >> }
+\* bounds far outside every type (30: above, -10: below); the harness spells them with a magnitude of 2^64 or more
+MCFarPoints == {0, 11, 22, 30, 0-10}
+MCParentsFar == { << R(0, 22) >>, << R(1, 21) >> }
 MCToks == {1, 11, 22, MINSYM, MAXSYM, DOTS, BAR, JUNK}
 ====
